@@ -6,11 +6,13 @@
 #include <stdlib.h>
 #include <string.h>
 #include <unistd.h>
+#include <sys/syscall.h>
 #include <errno.h>
 #include <algorithm>
 #include <execinfo.h>
 
 extern "C" void __sanitizer_print_stack_trace(void);
+extern "C" long __real_syscall(long, ...);
 extern "C" void __sanitizer_symbolize_pc(void* pc, const char* fmt, char* out_buf, size_t out_buf_size);
 
 namespace sim {
@@ -254,6 +256,12 @@ static thread_local struct OpState {
 
 bool verbose() { return g.verbose; }
 
+void hard_exit(int code) {
+  fflush(stdout); fflush(stderr);
+  __real_syscall(SYS_exit_group, long(code));
+  for (;;) {}
+}
+
 void logf(const char* fmt, ...) {
   char buf[1024];
   va_list ap; va_start(ap, fmt);
@@ -311,8 +319,7 @@ void fail(const char* cls, const char* fmt, ...) {
   snprintf(head, sizeof head, "V %llu %016llx ", (unsigned long long)g.run_index, (unsigned long long)g.log_hash);
   emit_result_line(std::string(head) + cls + "\t" + escape_detail(detail) + "\n");
   dump_counters();
-  fflush(stderr);
-  _exit(3);
+  hard_exit(3);
 }
 
 // ---------------------------------------------------------------------------------------------------------------
